@@ -26,6 +26,8 @@ scratch=$(mktemp -d /tmp/seeded-repo.XXXXXX)
 cp -r /repo/tdda $scratch/ && (cd $scratch && patch -p1 -s < /verif/seeded/$name/patch.diff)
 for p in "$@"; do
   echo "== ./check $p on a copy of /repo with the change:"
-  VERIF_REPO=$scratch /verif/check $p 2>&1 | grep -v conda | grep -E "^(VIOLATION|SUMMARY|CHECKER|UNDECIDED)" | cut -c1-260 | head -8
+  VERIF_REPO=$scratch /verif/check $p > /tmp/seeded_$name.$p.out 2>&1
+  grep -E "^(VIOLATION|SUMMARY|CHECKER)" /tmp/seeded_$name.$p.out | cut -c1-260 | head -8
+  echo "   (UNDECIDED lines: $(grep -c '^UNDECIDED' /tmp/seeded_$name.$p.out))"
 done
 rm -rf $scratch
